@@ -1978,6 +1978,7 @@ impl Interp {
             ("trace", [a]) => self.op_trace(a),
             ("inject", a) => self.op_inject(a),
             ("x-w2d", a) => self.op_ext_w2d(a), // ext w2d (single dispatch line)
+            ("x-w2d-inject", a) => self.op_ext3_w2d(a), // ext3 w2d (single dispatch line)
             ("late-release", [ns]) => self.op_late_release(ns), // ext w2c (single dispatch line)
             ("write-bg", a) | ("join", a) => self.op_bg(op, a), // ext2 w2c (single dispatch line)
             ("timers", []) => {
@@ -2278,6 +2279,85 @@ impl Interp {
     }
 }
 // ---- END ext w2d ----
+
+// ---- BEGIN ext3 w2d (C06: allocation observation) ----
+// A counting global allocator (current / peak heap of this process, optional hard limit) and the op
+// `x-w2d-inject <from> <to> meta|user <hex>`: exactly `inject`, but when the environment variable
+// DSIM_ALLOC_CHECK=<c>:<d>:<limit> is set (bytes; e.g. 64:1048576:2147483648) the heap is observed while the datagram is
+// delivered and processed: an allocation that would take the heap above <limit> fails (the process aborts as it does
+// when the system refuses memory -> the supervisor answers CRASH), and when the peak heap grew by more than
+// <c> * datagram length + <d> during the op the answer is `ALLOC <growth>` instead of `ok #id`.
+// Without the variable the op is `inject` and the allocator only counts (two relaxed atomic operations per call).
+mod w2d_alloc {
+    use std::alloc::{GlobalAlloc, Layout, System};
+    use std::sync::atomic::{AtomicUsize, Ordering::Relaxed};
+    pub static CUR: AtomicUsize = AtomicUsize::new(0);
+    pub static PEAK: AtomicUsize = AtomicUsize::new(0);
+    pub static LIMIT: AtomicUsize = AtomicUsize::new(usize::MAX);
+    pub struct Counting;
+    fn take(n: usize) -> bool {
+        let now = CUR.fetch_add(n, Relaxed).saturating_add(n);
+        if now > LIMIT.load(Relaxed) {
+            CUR.fetch_sub(n, Relaxed);
+            return false;
+        }
+        PEAK.fetch_max(now, Relaxed);
+        true
+    }
+    unsafe impl GlobalAlloc for Counting {
+        unsafe fn alloc(&self, l: Layout) -> *mut u8 {
+            if !take(l.size()) {
+                return core::ptr::null_mut();
+            }
+            unsafe { System.alloc(l) }
+        }
+        unsafe fn alloc_zeroed(&self, l: Layout) -> *mut u8 {
+            if !take(l.size()) {
+                return core::ptr::null_mut();
+            }
+            unsafe { System.alloc_zeroed(l) }
+        }
+        unsafe fn dealloc(&self, p: *mut u8, l: Layout) {
+            CUR.fetch_sub(l.size(), Relaxed);
+            unsafe { System.dealloc(p, l) }
+        }
+        unsafe fn realloc(&self, p: *mut u8, l: Layout, new_size: usize) -> *mut u8 {
+            if new_size > l.size() {
+                if !take(new_size - l.size()) {
+                    return core::ptr::null_mut();
+                }
+            } else {
+                CUR.fetch_sub(l.size() - new_size, Relaxed);
+            }
+            unsafe { System.realloc(p, l, new_size) }
+        }
+    }
+}
+#[global_allocator]
+static W2D_ALLOC: w2d_alloc::Counting = w2d_alloc::Counting;
+impl Interp {
+    fn op_ext3_w2d(&mut self, toks: &[&str]) -> Res {
+        use std::sync::atomic::Ordering::Relaxed;
+        let Ok(cfg) = std::env::var("DSIM_ALLOC_CHECK") else { return self.op_inject(toks) };
+        let mut it = cfg.split(':').map(|x| x.parse::<usize>().ok());
+        let c = it.next().flatten().unwrap_or(64);
+        let d = it.next().flatten().unwrap_or(1 << 20);
+        let limit = it.next().flatten().unwrap_or(2 << 30);
+        let len = toks.get(3).map(|h| h.len() / 2).unwrap_or(0);
+        let start = w2d_alloc::CUR.load(Relaxed);
+        w2d_alloc::PEAK.store(start, Relaxed);
+        w2d_alloc::LIMIT.store(limit, Relaxed);
+        let r = self.op_inject(toks);
+        w2d_alloc::LIMIT.store(usize::MAX, Relaxed);
+        let growth = w2d_alloc::PEAK.load(Relaxed).saturating_sub(start);
+        if std::env::var("DSIM_ALLOC_DEBUG").is_ok() {
+            eprintln!("x-w2d-inject: datagram {len} bytes, peak heap growth {growth} bytes");
+        }
+        let r = r?;
+        Ok(if growth > c.saturating_mul(len).saturating_add(d) { format!("ALLOC {growth}") } else { r })
+    }
+}
+// ---- END ext3 w2d ----
 
 // ---- BEGIN ext2 w2c
 // Two API calls in flight (needed for "the instance of a BLOCKED write is unregistered", C27): the scenario
